@@ -73,6 +73,11 @@ func (r *Run) repeatEvents(fn *ssa.Function, blocks []*ssa.BasicBlock, tPar ssa.
 					continue
 				}
 				if sc := c.Common().StaticCallee(); sc != nil && p.inRapid(sc) {
+					if h := transparentCallee(in); h != nil {
+						// an extracted helper: its own events, in block order
+						evs = append(evs, r.repeatEvents(h, h.Blocks, resolveParamArg(p, h, tPar, c.Common()))...)
+						continue
+					}
 					// any other package function could run callbacks
 					evs = append(evs, smEvent{"X", in, nil})
 				}
@@ -613,4 +618,10 @@ func ruleC08R6(r *Run) {
 	}
 	r.Check("runAction#skip-consults-flag", filter.Pos(), ok, "on the skip (invalidData) path the failure flag is consulted before runAction returns",
 		why+": an action that signals a non-fatal failure (Errorf/Fail) and then skips lets Repeat run further actions and invariant checks on the falsified state (the test case fails only at its end)")
+}
+
+// resolveParamArg: the value tPar as seen from inside helper h (parameters resolve to the call's
+// arguments, so the caller's value itself is what comparisons after resolve() yield).
+func resolveParamArg(p *Program, h *ssa.Function, tPar ssa.Value, c *ssa.CallCommon) ssa.Value {
+	return tPar
 }
